@@ -440,6 +440,7 @@ def _run_one(args):
         mod.check(ctx)
         known = load_known()
         new = [f for f in ctx.findings if f.ident() not in known]
+        ctx.raise_deferred(bool(new))
         return (kind, desc, rel, 'violation' if new else 'silent', (new[0].rule + ': ' + new[0].message[:160]) if new else '')
     except AnalysisError as e:
         return (kind, desc, rel, 'analysis-error', str(e)[:160])
@@ -569,6 +570,7 @@ def _run_overlay(args):
         mod.check(ctx)
         known = load_known()
         new = [f for f in ctx.findings if f.ident() not in known]
+        ctx.raise_deferred(bool(new))
         return (kind, ident, 'violation' if new else 'silent', (new[0].rule + ': ' + new[0].message[:200]) if new else '')
     except AnalysisError as e:
         return (kind, ident, 'analysis-error', str(e)[:200])
